@@ -181,4 +181,14 @@ TEXT = {
                 "Said plainly: Coq adds bookkeeping rigour here, the weight is in the extractor and the reflective sweep.",
         "note": "the extractor (harness/astx.go) and reflection-based argument synthesis are trusted; Init itself (registration) is only exercised dynamically; no axioms.",
     },
+    "C15": {
+        "engine": "generated", "design_ref": "DESIGN.md section 6, C15",
+        "technique": "translator (go/ast) of the four synchronisation skeletons + Coq proof (invariants over a small-step semantics, for every size and EVERY schedule) + dynamic runs with perturbed schedules and the Go race detector",
+        "text": "The skeleton of each async method is extracted from the source on every run and must equal the modelled one (C15_*_skeleton). For every n and every schedule: a returned ForEachAsync ran the callback "
+                "exactly once per element with the matching pair and after every callback had returned (C15_foreach); MapAsync additionally stores f(i,x_i) in slot i = what Map stores (C15_map); mutual exclusion (C15_mutex); "
+                "no deadlock (C15_*_progress); readers write nothing (C15_readers_write_nothing); dropping Wait, Done-before-call and captured loop variables are refuted by concrete schedules. "
+                "PARTIAL in one named respect: the theorems cover all interleavings of the modelled atomic steps; that Go's scheduler and memory model realise those steps is runtime truth, exercised by delayed callbacks, "
+                "GOMAXPROCS 1..16, concurrent readers and a second run of everything under the race detector.",
+        "note": "reader part holds after the repair of D5 (7931f9b); extractor and WaitGroup/Mutex semantics are trusted; no axioms.",
+    },
 }
